@@ -747,6 +747,70 @@ func c18Edges(c *Ctx, e *c18Env) {
 		case <-time.After(3 * time.Second):
 		}
 	}, "/" + fxPkg + ".Svc/BD"})
+	// a binding without a body mapping called with a request body: the message is still one in-payload
+	for _, chunked := range []bool{false, true} {
+		name := fmt.Sprintf("http: GET binding called with a request body (chunked=%v)", chunked)
+		e.st.Reset()
+		r := httptest.NewRequest("GET", "/c18/g/ok", strings.NewReader(`{"otherName":"ignored"}`))
+		r.Header.Set("Content-Type", "application/json")
+		if chunked {
+			r.ContentLength = -1
+		}
+		rec, pn := serveOn(fx.Mux, r)
+		evs, endErrs := e.st.Snapshot()
+		c.Eval("edge", name, true)
+		c.Class("edge")
+		if pn == nil && rec.Code == 200 {
+			if why := c18Grammar(evs, endErrs, "/"+fxPkg+".Svc/G", false, false, 1, 1, false); why != "" {
+				c.SpecFail("stats", name, strings.Join(evs, " "), "tag in-header begin, one in-payload, one out-payload, end", "C18/edge/"+c18Key(why), why)
+			}
+		}
+	}
+	// a reply refused by the send limit is not a sent message: no out-payload event for it
+	if stl := (&recStats{}); true {
+		lfx, err := NewFixture(c18Specs("Svc", true), nil, larking.StatsOption(stl), larking.MaxSendMessageSizeOption(40))
+		if err == nil && lfx.RegErr == nil && lfx.RegPanic == nil {
+			for _, tr := range []string{"application/grpc-web+proto", "application/grpc+proto"} {
+				for _, long := range []bool{false, true} {
+					nm := "ok"
+					if long {
+						nm = strings.Repeat("x", 100) // the reply "u:"+name is over the send limit
+					}
+					b, _ := proto.Marshal(c18Req(lfx, nm, "", 0))
+					r := httptest.NewRequest("POST", "/"+fxPkg+".Svc/U", bytes.NewReader(grpcFrame(0, b)))
+					r.Header.Set("Content-Type", tr)
+					if tr == "application/grpc+proto" {
+						r.ProtoMajor, r.ProtoMinor = 2, 0
+					}
+					stl.Reset()
+					rec, pn := serveOn(lfx.Mux, r)
+					evs, _ := stl.Snapshot()
+					name := fmt.Sprintf("%s: unary reply over the send limit=%v", tr, long)
+					c.Eval("edge", name, true)
+					c.Class("edge")
+					if pn != nil {
+						continue
+					}
+					frames, flags, _ := parseFrames(rec.Body.Bytes())
+					ndata, nOut := 0, 0
+					for i := range frames {
+						if flags[i]&0x80 == 0 {
+							ndata++
+						}
+					}
+					for _, ev := range evs {
+						if ev == "outPayload" {
+							nOut++
+						}
+					}
+					if nOut != ndata {
+						c.SpecFail("stats", name, fmt.Sprintf("%d out-payload events, %d reply messages on the wire: %s", nOut, ndata, strings.Join(evs, " ")), "one out-payload event per message sent", "C18/edge/out-payload-count", "an out-payload event was reported for a reply that was never sent (or none for one that was)")
+					}
+				}
+			}
+			lfx.Close()
+		}
+	}
 	for _, ed := range edges {
 		e.st.Reset()
 		ed.do()
